@@ -31,10 +31,10 @@ class Ctx:
             yv.drop_worker(self.variant); self.w = yv.get_worker(self.variant)
             return e
 
-    def compile_case(self, limit, label, text, expect_err, incfiles=(), cfg=(), defs=(), msgkey=None):
+    def compile_case(self, limit, label, text, expect_err, incfiles=(), cfg=(), defs=(), msgkey=None, copts=""):
         """expect_err: None (must compile) or an error code that `last` must equal"""
         self.n += 1
-        cmds = ["reset", "incclear"] + list(cfg) + ["incfile %s %s" % (n, yv.hx(t)) for n, t in incfiles] + ["compiler 0 inc=%d" % (1 if incfiles else 0)] + list(defs)
+        cmds = ["reset", "incclear"] + list(cfg) + ["incfile %s %s" % (n, yv.hx(t)) for n, t in incfiles] + ["compiler 0 inc=%d%s" % (1 if incfiles else 0, copts)] + list(defs)
         cmds += ["add 0 - " + yv.hx(text), "getrules 0 0", "cdestroy 0", "reset"] + CANARY
         rep = self.batch(cmds)
         if isinstance(rep, Exception):
@@ -141,6 +141,20 @@ def regex_limits(cx, quick):
         if k < 1 or k > 2000: continue
         re_ = "x" + "a?" * k + "y"
         add = cx.compile_case("regex-splits", "k=%d %s" % (k, "scaled" if small else "real"), "rule r { strings: $a = /%s/ condition: $a }" % re_, None if k < L - 1 else (E["RE_COMPLEX"] if k > L + 1 else "either"))
+    # the same limits for a regexp in every POSITION (string, operand of `matches`, function argument), with strict escape checking off and on, with and without an
+    # unknown escape sequence in it (with strict checking that is a warning raised by the regexp parser - it must not mask the limit error raised afterwards)
+    for k in (L - 2, L + 2, 2 * L, 10 * L):
+        if k < 1 or k > 2000: continue
+        for esc in ("", "\\g"):
+            body = "x" + esc + "a?" * k + "y"
+            for pos, text in (("string", "rule r { strings: $a = /%s/ condition: $a }" % body), ("matches", 'rule r { condition: "xy" matches /%s/ }' % body),
+                              ("function-argument", 'import "pe" rule r { condition: pe.exports(/%s/) }' % body)):
+                for strict in (0, 1):
+                    cx.compile_case("regex-splits", "k=%d %s escape=%r strict=%d" % (k, pos, esc, strict), text, None if k < L - 1 else E["RE_COMPLEX"], copts=" strict=%d" % strict)
+    for esc in ("", "\\g"):
+        for pos, tmpl in (("string", "rule r { strings: $a = /%s/ condition: $a }"), ("matches", 'rule r { condition: "xy" matches /%s/ }')):
+            for strict in (0, 1):
+                cx.compile_case("regex-size", "%s escape=%r strict=%d" % (pos, esc, strict), tmpl % ("x" + esc + "((abc|def|ghi|jkl){500}){20}"), "either-large", copts=" strict=%d" % strict)
     # boundary must exist and be sharp: find it
     res = {}
     for k in range(max(1, L - 3), L + 4):
